@@ -1,32 +1,18 @@
-"""Registry of the properties the machinery decides (one entry per claimed property)."""
+"""Registry of the properties the machinery decides: one JSON file per claimed property in
+/verif/props/ (keys: dir, deps, rule, trusted, assumptions, level_text, level_note, ...)."""
+import glob
+import json
+import os
+
+ROOT = os.path.dirname(os.path.dirname(os.path.abspath(__file__)))
 
 BASE_TRUSTED = [
     "Coq 8.16.1 kernel (coqc, full .vo builds; vm_compute used, native_compute not used)",
     "Coq extraction to OCaml 4.13.1 with ExtrOcamlBasic directives only; ocaml/driver.ml (generic s-expression driver, zarith)",
-    "tools/translate.py (source/dump -> coq/Gen) and harness/src/dump.rs",
+    "tools/translate.py + tools/translators/*.py (source/dump -> coq/Gen) and the harness dump functions",
     "harness/ (Rust case generators, outcome canonicalisation) and bin/check (diff, verdict)",
 ]
 
-PROPS = {
-    "C04": {
-        "dir": "C04",
-        "deps": [],
-        "rule": "systematic: 11 versions x 12 types x all specified keys through 3 entry points; random: events with "
-                "random subsets of specified/unspecified top-level and content keys, nested values, third_party_invite "
-                "shapes, ill-typed type/content; non-trivial = distinct case whose implementation outcome is Ok",
-        "trusted": [
-            "modelled, not verified: BTreeMap as strictly sorted association list (insert/remove/iteration order); "
-            "mem::take + re-insert loop of RetainedKeys::apply",
-            "Spec.v transcription of the Matrix redaction rules per room version number (DESIGN.md A.2)",
-        ],
-        "level_text": "Proof: for every room version 1-11 (rules and key tables regenerated from the source on every run) and "
-                      "every well-formed event, the model of redact/redact_in_place/redact_content_in_place equals the "
-                      "per-version specification (exact keys kept, values untouched), is idempotent, adds nothing but "
-                      "redacted_because, and errors exactly on ill-typed input; the model is tied to the code by the translator "
-                      "(tables, rules) and by an extraction-based correspondence run on structured events.",
-        "level_note": "Trusted: Coq kernel; translator for canonical_json.rs tables and the Debug dump of RoomVersionRules; "
-                      "BTreeMap modelled as sorted association list; Spec.v is a hand transcription of the spec (DESIGN.md A.2); "
-                      "control flow of redact tied by differential testing, not by translation.",
-        "assumptions": ["input objects are CanonicalJsonObjects (sorted unique keys at every depth) - guaranteed by the Rust type"],
-    },
-}
+PROPS = {}
+for _f in sorted(glob.glob(os.path.join(ROOT, "props", "C*.json"))):
+    PROPS[os.path.basename(_f)[:-5]] = json.load(open(_f))
